@@ -14,12 +14,12 @@ VARS = ["IA", "JB", "KC", "ND", "ME"]
 
 class G:
     def __init__(self, rng):
-        self.rng = rng; self.funcs = []; self.loop_depth = 0; self.in_func = False; self.nloops = 0; self.ncalls = 0
+        self.rng = rng; self.funcs = []; self.loop_depth = 0; self.in_func = False; self.nloops = 0; self.ncalls = 0; self.names = list(VARS)
     def expr(self, d, allow_call=True):
         r = self.rng
         if d == 0 or r.random() < 0.35:
             if r.random() < 0.5: return ("lit", r.randint(0, 9))
-            return ("var", r.choice(VARS))
+            return ("var", r.choice(self.names))
         if allow_call and self.funcs and r.random() < 0.2:
             f = r.choice(self.funcs); self.ncalls += 1
             nargs = r.randint(max(0, len(f["params"]) - f["ndef"]), len(f["params"]))
@@ -68,12 +68,14 @@ class G:
         name = ["FA", "FB", "FC", "GG"][idx]
         np = r.randint(0, 3); ndef = r.randint(0, np)
         params = []
+        pool = list(VARS); r.shuffle(pool)
         for i in range(np):
-            params.append((["PA", "QB", "RC"][i], r.randint(0, 9) if i >= np - ndef else None))
-        self.in_func = True
+            # parameters often carry the name of a caller variable (shadowing; arguments mentioning such a name read the caller's value)
+            params.append((pool[i] if r.random() < 0.5 else ["PA", "QB", "RC"][i], r.randint(0, 9) if i >= np - ndef else None))
+        self.in_func = True; self.names = list(VARS) + [p for p, _ in params if p not in VARS] * 2
         body = self.block(2, r.randrange(1, 4))
         if r.random() < 0.8: body.append(("ret", self.expr(1, False)) if r.random() < 0.7 else ("assign", "Result", self.expr(1, False)))
-        self.in_func = False
+        self.in_func = False; self.names = list(VARS)
         f = dict(name=name, params=params, ndef=ndef, body=body)
         return f
 
@@ -147,6 +149,10 @@ def gen_case(rng):
     return src, "(%s %s)" % (fsexp, ss(prog)), g.nloops + g.ncalls
 
 FIXED = [
+    ("FUNCTION FACT(KA,ACC){ IF(KA<=1){ RETURN(ACC) } RETURN(FACT(KA-1, ACC*KA)) } PRINT(FACT(5,1))",
+     "(((fn FACT ((KA _) (ACC _)) ((if (b 10 KA 1) ((ret ACC)) ()) (ret (call FACT ((b 4 KA 1) (b 0 ACC KA))))))) ((print (call FACT (5 1)))))"),
+    ("FUNCTION DIFF(IA,JB){ RETURN(IA-JB) } INT IA=10; INT JB=3; PRINT(DIFF(JB,IA))",
+     "(((fn DIFF ((IA _) (JB _)) ((ret (b 4 IA JB))))) ((decl IA 10) (decl JB 3) (print (call DIFF (JB IA)))))"),
     ("INT I=0 WHILE(1==1){ I++ CONTINUE } PRINT(I) n60", "(() ((decl I 0) (while (b 5 1 1) ((inc I 1) (continue))) (print I) (note 60)))"),
     ("INT I=0 FOR(INT J=0; 1==1; J++){ I++ } PRINT(I) n61", "(() ((decl I 0) (for J 0 (b 5 1 1) (inc J 1) ((inc I 1))) (print I) (note 61)))"),
     ("FUNCTION F(A){RETURN(A+1)} FUNCTION G(A){RETURN(A+100)} PRINT(G(1)) PRINT(F(1))", "(((fn F ((A _)) ((ret (b 3 A 1)))) (fn G ((A _)) ((ret (b 3 A 100))))) ((print (call G (1))) (print (call F (1)))))"),
